@@ -20,7 +20,10 @@ PROPERTIES = ["C20"]
 
 def gen_plan_enum(rng: Rng, tier: str, base: int = 0) -> Dict[str, Any]:
     """Base plan of a fault-point enumeration over the write calls of one writer operation."""
-    world = worldgen.gen_world(rng.fork("world"), "files", {"always_args": True, "causal": True})
+    ov: Dict[str, Any] = {"always_args": True, "causal": True}
+    if base % 4 in (0, 3):
+        ov["ranks"] = rng.fork("nranks").choice([2, 2, 3])   # the copying writers get another source for the recovery session
+    world = worldgen.gen_world(rng.fork("world"), "files", ov)
     files = world["files"]
     ranks = [f["rank"] for f in files]
     inc = rng.chance(0.5)
